@@ -38,12 +38,12 @@ prop("C01", ["TAB-1", "TAB-3", "TAB-4", "ENC-1", "ENC-2", "ENC-5", "WID-1", "WID
      "bytes are emitted as opcode, post-byte, operand.",
      "that every grammar-valid operand string is classified into the right operand class, and value-level correctness for all 2^16 operand values beyond the width/sign facts.",
      ASM_ASSUME)
-prop("C02", ["TAB-2", "LAY-0", "LAY-1", "LAY-3", "LAY-5", "ENC-2", "ENC-3", "WID-1", "REL-3"],
+prop("C02", ["TAB-2", "LAY-0", "LAY-1", "LAY-3", "LAY-5", "ENC-2", "ENC-3", "WID-1", "REL-3", "DIR-1", "EXP-1"],
      "table sizes equal opcode length plus operand bytes; per return path of every translate() the bytes emitted equal the size reported and max_size >= size; the passes of "
      "translate_statements run in the order expansion, collection, resolution, translation, sizing, addressing, fix-up, back-patch, each over all statements; the address pass is a single "
      "forward accumulation of code_pkg.size; every store into the symbol table is dominated by the redefinition check and undefined symbols raise; listing and image concatenate the same three fields.",
      "numeric equality of listing addresses and image offsets for concrete programs (it follows from the rules only where the width findings are repaired).", ASM_ASSUME)
-prop("C03", ["REL-1", "REL-3", "REL-5", "ENC-1", "ENC-3"],
+prop("C03", ["REL-1", "REL-3", "REL-5", "ENC-1", "ENC-3", "TAB-1", "TAB-2"],
      "affine identity: the value emitted for every branch arm equals A[target] - A[this+1] modulo the field width, with the summed slices non-degenerate on the arm's guard; short branches are "
      "rejected exactly outside -128..+127; PC-relative sizing: each arm sets (size increment, max_size, post-byte choice, width hint) consistently, 8-bit is chosen only under an upper estimate "
      "that sums max_size over a window covering the displacement including the instruction itself, thresholds 127/128; label+n operands take their index through the address-expression predicate "
@@ -54,7 +54,7 @@ prop("C04", ["EXP-1", "LAY-1", "LAY-3", "WID-3", "WID-6", "ENC-6", "ESC-1", "REL
      "over all statements (definition order irrelevant); undefined symbols raise; width predicates and two's-complement modulus follow the field width; statement-level handlers turn arithmetic errors "
      "(division by zero, out-of-range results) into a TranslationError.",
      "the arithmetic value of an expression for concrete operands and reduction modulo 65536; the address-expression path (calculate_address_offset) carries recorded findings.", ASM_ASSUME)
-prop("C05", ["DIR-1", "WID-3", "WID-1", "TAB-1"],
+prop("C05", ["DIR-1", "WID-3", "WID-1", "TAB-1", "TXT-1"],
      "every pseudo row either has an emitting arm (FCB, FDB, FCC, RMB) with the directive's width/size facts (element widths 2/4 hex digits, single values hint 2/4 size 1/2, RMB n -> n zero bytes, "
      "self-sized lists and strings) or reaches the empty CodePackage; list separators; string delimiters must match; FCC's closing delimiter is the first occurrence after the opening one; "
      "two's-complement rendering at the directive's width.",
@@ -63,7 +63,7 @@ prop("C06", ["CAS-1", "CAS-3", "CAS-5", "CAS-6", "VF-8"],
      "the reader consumes exactly the frames the writer produces: header signature, each header field read at the offset the writer stores it and delivered to the matching CoCoFile field, "
      "name length, where block search resumes, data blocks stepped over by exactly 4 + len + 2 with payload copied from offset 4, EOF frame length; writers never modify the data they are given.",
      "equality of data for all contents and lengths; tolerance of arbitrary foreign tapes.")
-prop("C07", ["DSK-1", "DSK-2", "DSK-3", "DSK-4", "DSK-5", "DSK-12", "DSK-13", "VF-8", "CAS-3"],
+prop("C07", ["DSK-1", "DSK-2", "DSK-3", "DSK-4", "DSK-5", "DSK-12", "DSK-13", "VF-8", "CAS-3", "DET-2"],
      "geometry constants and the granule->offset map for all 68 granules; directory entry layout of writer and reader against the Disk BASIC layout with bounded field writes; preamble/postamble "
      "read/write siblings agree on flags, offsets and lengths and on which file kind gets which; FAT links, terminator C0+sectors, reader masks; stream length computed identically by the three "
      "length functions (with and without trailer), sector and granule counts consistent for every length.",
@@ -101,7 +101,7 @@ prop("C14", ["CAS-1", "CAS-4"],
      "established by pairing every byte written with a checksum term, trailer 55; data payload byte i = data[i], continuation at the number of bytes written; file order leader, name-file, leader, "
      "data, EOF; only appends.",
      "nothing input-dependent: this property is decided completely under the stated assumptions.", ["data bytes are 0..255 and name characters are single-byte"])
-prop("C15", ["DSK-6", "DSK-7", "DSK-12", "DSK-13", "DSK-4", "VF-1"],
+prop("C15", ["DSK-6", "DSK-7", "DSK-12", "DSK-13", "DSK-4", "VF-1", "DET-2", "DET-3"],
      "the fill order offers all 68 granules once; allocation only of free granules, exhaustion raises; directory scan covers at least 68 slots and a full directory raises; granule count = "
      "floor(stream/2304)+1 for every stream length; the image is rebuilt in memory before the host file is touched.",
      "exact granule counts for concrete sequences of additions.")
@@ -114,7 +114,7 @@ prop("C17", ["DET-1", "DET-2", "DET-3", "DET-4", "DET-5", "DET-6"],
      "shared default objects are never mutated; the source-line list is only read; no iteration over sets, no hash/id/time/random/environment reads in the core; no memoisation. Each rule carries "
      "an embedded bad/good canary pair evaluated on every run.",
      "nothing further under the assumption of insertion-ordered dicts.", ["dict insertion order (Python >= 3.7)"])
-prop("C18", ["TXT-1", "EXP-1", "LAY-1", "WID-3"],
+prop("C18", ["TXT-1", "EXP-1", "LAY-1", "WID-3", "DIR-1", "REL-1", "REL-5"],
      "the mnemonic is upper-cased before lookup; the line pattern splits label/mnemonic/operands for any amount of white space; accumulator offsets are recognised by whole-string comparison "
      "(no substring tests on operand text); addresses are prefix-determined (single forward pass); one-byte width only for values <= 255.",
      "the metamorphic relations themselves (relocation, renaming, reformatting) for concrete programs.", ASM_ASSUME)
